@@ -888,14 +888,36 @@ func (c *specCtx) callExpr(x *ast.CallExpr) (tv, error) {
 			return tv{}, fmt.Errorf("gocall: bad function name %q", name)
 		}
 		var sig *types.Signature
-		for _, p := range fr.enc.prog.AllPackages() {
-			if p.Pkg.Path() == name[:dot] {
-				if fo, ok := p.Pkg.Scope().Lookup(name[dot+1:]).(*types.Func); ok {
-					sig = fo.Type().(*types.Signature)
+		pkgPath := name[:dot]
+		if strings.HasPrefix(name, "(") {
+			// a method: "(*net/url.URL).String" or "(time.Time).Format"; the receiver is the first argument
+			close := strings.Index(name, ")")
+			recv := strings.TrimPrefix(name[1:close], "*")
+			rd := strings.LastIndex(recv, ".")
+			if close < 0 || rd < 0 {
+				return tv{}, fmt.Errorf("gocall: bad method name %q", name)
+			}
+			pkgPath = recv[:rd]
+			for _, p := range fr.enc.prog.AllPackages() {
+				if p.Pkg.Path() == pkgPath {
+					if tn, ok := p.Pkg.Scope().Lookup(recv[rd+1:]).(*types.TypeName); ok {
+						obj, _, _ := types.LookupFieldOrMethod(types.NewPointer(tn.Type()), true, p.Pkg, name[dot+1:])
+						if fo, ok := obj.(*types.Func); ok {
+							sig = fo.Type().(*types.Signature)
+						}
+					}
+				}
+			}
+		} else {
+			for _, p := range fr.enc.prog.AllPackages() {
+				if p.Pkg.Path() == pkgPath {
+					if fo, ok := p.Pkg.Scope().Lookup(name[dot+1:]).(*types.Func); ok {
+						sig = fo.Type().(*types.Signature)
+					}
 				}
 			}
 		}
-		if sig == nil || !fr.enc.db.PurePkgs[name[:dot]] || ri >= sig.Results().Len() {
+		if sig == nil || !fr.enc.db.PurePkgs[pkgPath] || ri >= sig.Results().Len() {
 			return tv{}, fmt.Errorf("gocall: %q is not a function of a pure package (or has no such result)", name)
 		}
 		var sorts, as []string
